@@ -102,7 +102,7 @@ type tileStub struct {
 	key    *Key
 	world  *World
 	keyIdx int
-	kind   string // sumdb | tiles
+	kind   string   // sumdb | tiles
 	bad    []string // malformed tile requests seen
 	served int
 	cpText string
@@ -556,8 +556,8 @@ func init() {
 			}
 		},
 		Components: map[string]string{
-			"internal/client (SumDBClient, HTTPFetcher, path construction)":          "real",
-			"internal/feeder/sumdb (FeedLog, tileReader) + x/mod/sumdb/tlog.ProveTree": "real",
+			"internal/client (SumDBClient, HTTPFetcher, path construction)":                     "real",
+			"internal/feeder/sumdb (FeedLog, tileReader) + x/mod/sumdb/tlog.ProveTree":          "real",
 			"internal/feeder (FeedOnce, backoff), omniwitness.witnessAdapter, internal/witness": "real",
 			"SumDB server": "harness stub serving /latest and /tile/8/... from the reference tree, validating every tile path it receives",
 			"network":      "simnet (drop, status substitution, truncation, corruption, garbage, oversize, stall)",
